@@ -1,13 +1,13 @@
 package main
 
 import (
-	"runtime"
 	"bufio"
 	"encoding/json"
 	"flag"
 	"fmt"
 	"os"
 	"path/filepath"
+	"runtime"
 	"sort"
 	"strconv"
 	"strings"
@@ -189,6 +189,9 @@ func cmdCheck(args []string) {
 	}
 	var jobs []job
 	for _, r := range results {
+		if r.Exec != nil {
+			r.Exec.runProp = *prop
+		}
 		for _, o := range r.Obls {
 			if has(o.Props, *prop) {
 				jobs = append(jobs, job{r, o})
@@ -360,14 +363,14 @@ func cmdCheck(args []string) {
 			"seed":        seed,
 			"level":       level,
 			"coverage": map[string]interface{}{
-				"obligations":  nObl,
-				"discharged":   nDis,
-				"checker_cmd":  fmt.Sprintf("bin/govc check -prop %s -tier %s  (VC generation over go/ssa of /repo's working tree with -tags verif; obligations raced on z3-new 5.1.0, z3 4.8.12, cvc5 1.0; timeout %ds each)", *prop, *tier, timeout),
-				"trusted_base": sortedKeys(trustSet),
-				"functions_under_contract": fnsUnder,
-				"obligations_by_kind":      byKind,
-				"discharged_by_solver":     bySolver,
-				"solver_time_s":            round2(solverTime),
+				"obligations":               nObl,
+				"discharged":                nDis,
+				"checker_cmd":               fmt.Sprintf("bin/govc check -prop %s -tier %s  (VC generation over go/ssa of /repo's working tree with -tags verif; obligations raced on z3-new 5.1.0, z3 4.8.12, cvc5 1.0; timeout %ds each)", *prop, *tier, timeout),
+				"trusted_base":              sortedKeys(trustSet),
+				"functions_under_contract":  fnsUnder,
+				"obligations_by_kind":       byKind,
+				"discharged_by_solver":      bySolver,
+				"solver_time_s":             round2(solverTime),
 				"known_finding_obligations": nKnownObl,
 				"known_findings_hit":        kf,
 				"undischarged":              undecided,
@@ -424,7 +427,7 @@ func writeEvidenceFail(dir, prop, tier string, seed int, wall float64, msg strin
 	}
 	ev := map[string]interface{}{
 		"property_id": prop, "tier": tier, "seed": seed, "level": "proof",
-		"coverage": map[string]interface{}{"obligations": 1, "discharged": 0, "checker_cmd": "bin/govc check", "trusted_base": []string{}, "explanation": "load failure: " + msg},
+		"coverage":    map[string]interface{}{"obligations": 1, "discharged": 0, "checker_cmd": "bin/govc check", "trusted_base": []string{}, "explanation": "load failure: " + msg},
 		"assumptions": []string{}, "wall_s": round2(wall), "violations": 1,
 	}
 	os.MkdirAll(dir, 0o755)
